@@ -1,24 +1,9 @@
 ---- MODULE RelAutonat ----
-(* C50 (address clause) as a relation over abstract multiaddrs = sequences of <<kind, val>>; val of an IP
-   component: "obs" (the IP the server observed for the requester) or "other"; of /p2p: "req" (the requester) or
-   "other".  Every address the real filter_valid_addrs lets through (= handed to ToSwarm::Dial) must be DialOK:
-     - it has an IP component, every IP component equals the observed IP, and no DNS name is present (a DNS
-       host component would make the transport dial whatever the name resolves to),
-     - no relay hop (/p2p-circuit),
-     - every /p2p names the requester and the address ends with /p2p/<requester>.
-   Nothing is required about which demanded addresses are dropped. *)
-EXTENDS TraceIO
+(* C50 (address clause) as a relation: every address the real filter_valid_addrs lets through (= handed to
+   ToSwarm::Dial) must be DialOK (module AutonatAddr).  Nothing is required about which demanded addresses are
+   dropped. *)
+EXTENDS TraceIO, AutonatAddr
 VARIABLE x
-IsIp(c) == c[1] \in {"ip4", "ip6"}
-IsDns(c) == c[1] \in {"dns", "dns4", "dns6", "dnsaddr"}
-DialOK(a) ==
-  /\ Len(a) >= 2
-  /\ \E i \in 1..Len(a) : IsIp(a[i])
-  /\ \A i \in 1..Len(a) : /\ (IsIp(a[i]) => a[i][2] = "obs")
-                          /\ ~IsDns(a[i])
-                          /\ a[i][1] # "p2p-circuit"
-                          /\ (a[i][1] = "p2p" => a[i][2] = "req")
-  /\ a[Len(a)][1] = "p2p" /\ a[Len(a)][2] = "req"
 Post(r) == ~Has(r, "panic") /\ \A i \in 1..Len(r.out) : DialOK(r.out[i])
 ASSUME PrintT(<<"CHECKED", ToJson([n |-> NRec])>>)
 ASSUME \A i \in 1..NRec : Post(Rec[i]) \/ PrintT(<<"BAD", ToJson([line |-> i, why |-> "dial-back address not DialOK"])>>)
